@@ -317,7 +317,7 @@ impl Check for Registries {
                             removed_then_recreated += 1;
                             rec.class("pair_recreated_after_removal");
                         }
-                        r.provide_pair(&addr, a, b).map_err(|e| Fail::new(format!("providing liquidity failed: {e}")))?;
+                        r.provide_pair(&addr, a, b).map_err(|e| Fail::unobservable(format!("set-up: providing liquidity to a new pair failed: {e}")))?;
                         r.check_pair_entry(a, b, step)?;
                     }
                 }
